@@ -129,6 +129,11 @@ class Ctx:
         self.labels: list[str] = []
         self.known_hits: list[str] = []
         self.tier = state.tier
+        self.extra = 0
+
+    def count(self, n: int = 1) -> None:
+        """Record `n` further executions done inside this case (e.g. fault points enumerated per scenario)."""
+        self.extra += int(n)
 
     def nontrivial(self, flag: bool = True) -> None:
         if flag:
@@ -186,6 +191,7 @@ class ShardState:
         self.known_hits: Counter = Counter()
         self.samples: list[Any] = []
         self.skipped_budget = 0
+        self.extra_evals = 0
         self.failing: Optional[dict] = None     # last failing case (after shrinking = minimal)
         self.harness_error: Optional[str] = None
         self.seen_failure = False
@@ -227,6 +233,7 @@ class ShardState:
                 self.classes[lab] += 1
             for k in ctx.known_hits:
                 self.known_hits[k] += 1
+            self.extra_evals += ctx.extra
         if ctx.is_nontrivial:
             if hashing:
                 h = desc_hash(desc)
@@ -243,6 +250,7 @@ class ShardState:
         return {
             'sub': self.sub.name,
             'evaluations': self.evaluations,
+            'extra_evals': self.extra_evals,
             'nontrivial_hashes': self.nontrivial_hashes,
             'nontrivial_count': self.nontrivial_count,
             'classes': self.classes,
